@@ -1,5 +1,5 @@
 import Secp.Proofs.LimbLawful
-import Secp.Proofs.ReduceP
+import Secp.Proofs.ToMontP
 /-!
 # Base field: `FromMontgomery`, `ToMontgomery`, `Reduce` at the value level
 -/
